@@ -69,7 +69,7 @@ def replay(rec, container, storage_kind, names_kind="str"):
             res = imp.impute(subset, x, n)
             leftover = len(tape.script)
     except TapeMismatch as e:
-        return [("replay.impute.draws", str(e))]
+        return [("replay.impute.draw_range" if e.reason == "range" else "replay.impute.not_followed", str(e))]
     want = [[inp[f - 1] for f in range(1, d + 1)] for inp in rec["inputs"]]
     got = [[inp.get(nm) for nm in names] for inp in seen_inputs]
     if strategy == "default":
@@ -81,7 +81,7 @@ def replay(rec, container, storage_kind, names_kind="str"):
     if any(set(inp) != set(names) for inp in seen_inputs):
         probs.append(("replay.impute.extra_keys", "model input keys %s" % [sorted(map(str, inp)) for inp in seen_inputs][:2]))
     if leftover:
-        probs.append(("replay.impute.draws", "%d scripted draws were not consumed" % leftover))
+        probs.append(("replay.impute.not_followed", "%d scripted draws were not consumed" % leftover))
     if not isinstance(res, list) or len(res) != n or any(not isinstance(r, dict) or "output" not in r for r in res):
         probs.append(("replay.impute.count", "impute returned %r for n_samples=%d" % (res if not isinstance(res, list) else len(res), n)))
     elif strategy != "default":
